@@ -320,7 +320,36 @@ def structural_no_write_before_apply(repo):
     return out
 
 
-STRUCTURAL = [structural_no_write_before_apply]
+def structural_source_read_as_bytes(repo):
+    """(e) bytes outside the rewritten nodes - line endings included - are preserved: a Script that reads its source
+    from disk reads the BYTES of the file (decoding is left to parso, which keeps \\r\\n and \\r as they are); text
+    mode would translate every line ending before the refactoring ever sees it"""
+    rel = 'jedi/api/__init__.py'
+    try:
+        tree = ast.parse(open(os.path.join(repo, rel), encoding='utf-8').read())
+    except (OSError, SyntaxError) as e:
+        return [{'id': 'source-read-as-bytes', 'kind': 'post', 'ok': None, 'label': 'cannot parse %s: %s' % (rel, e)}]
+    from pyvc.verify import find_function
+    fn = find_function(tree, 'Script.__init__')
+    opens = []
+    for n in ast.walk(fn) if fn is not None else []:
+        if isinstance(n, ast.Call) and isinstance(n.func, ast.Name) and n.func.id == 'open':
+            mode = None
+            if len(n.args) >= 2 and isinstance(n.args[1], ast.Constant):
+                mode = n.args[1].value
+            for k in n.keywords:
+                if k.arg == 'mode' and isinstance(k.value, ast.Constant):
+                    mode = k.value.value
+            opens.append((n.lineno, mode, ast.unparse(n)))
+    text_mode = [o for o in opens if o[1] is None or 'b' not in str(o[1])]
+    return [{'id': 'source-read-as-bytes', 'kind': 'post', 'definite': bool(text_mode),
+             'ok': (not text_mode) if opens else None,
+             'label': 'Script.__init__ reads the file behind `path` in binary mode (no newline translation, no lossy '
+                      'decoding before parso): every open() in it has a mode containing "b"',
+             'detail': repr(opens)}]
+
+
+STRUCTURAL = [structural_no_write_before_apply, structural_source_read_as_bytes]
 
 
 def _standin(repo, seed, tier):
